@@ -43,10 +43,19 @@ Flat(s) == IF s.t # "S" THEN <<s.t>>
 Update(s, c) == LET n == NLeaves(s) IN [k \in 1..n |-> <<k - 1, (c - 1) * n + k - 1, (c - 1) * n + k - 1>>]
 
 \* ---- generation ------------------------------------------------------------------
-VARIABLES sh, done
-GInit == sh \in ShapeSet /\ done = FALSE
-GNext == UNCHANGED <<sh, done>>
-EmitShape == PrintT(<<"SHAPE", ToJson([shape |-> sh, leaves |-> Flat(sh), n |-> NLeaves(sh)])>>)
+\* A struct is a shape plus how it is written down, which must not matter:
+\*  naming: field names whose alphabetical order is the declaration order ("ordered"), its reverse
+\*          ("reversed") or unrelated to it ("mixed") - "declaration order" is not "name order";
+\*  attrs:  fields carrying attributes (doc comments, #[allow], a #[cfg] whose predicate is true) are
+\*          members like any other; a field whose #[cfg] predicate is false does not exist.
+Namings == {"ordered", "reversed", "mixed"}
+CONSTANT Full     \* TRUE: every (naming, attrs) combination for the small shapes too
+Variants(s) == IF Full /\ NLeaves(s) <= 3 THEN [naming : Namings, attrs : BOOLEAN]
+               ELSE {[naming |-> "ordered", attrs |-> FALSE], [naming |-> "reversed", attrs |-> TRUE], [naming |-> "mixed", attrs |-> FALSE]}
+VARIABLES sh, var, done
+GInit == sh \in ShapeSet /\ var \in Variants(sh) /\ done = FALSE
+GNext == UNCHANGED <<sh, var, done>>
+EmitShape == PrintT(<<"SHAPE", ToJson([shape |-> sh, leaves |-> Flat(sh), n |-> NLeaves(sh), naming |-> var.naming, attrs |-> var.attrs])>>)
 SizeOK == NLeaves(sh) >= 1 /\ NLeaves(sh) <= 8
 
 \* ---- validation of the recorded traces ---------------------------------------------
@@ -58,8 +67,8 @@ RecOK(r) ==
   /\ r.hand = r.calls                                  \* interchangeable with the hand-written sequence
   /\ Len(r.calls) >= 2
 Bad == {i \in 1..Len(Rec) : ~RecOK(Rec[i])}
-VInit == done = FALSE /\ sh = Leaf("A")
-VNext == done = FALSE /\ done' = TRUE /\ UNCHANGED sh
+VInit == done = FALSE /\ sh = Leaf("A") /\ var = [naming |-> "ordered", attrs |-> FALSE]
+VNext == done = FALSE /\ done' = TRUE /\ UNCHANGED <<sh, var>>
 Verdict ==
   done =>
     IF Bad = {} THEN PrintT(<<"ACCEPTED", Len(Rec)>>)
